@@ -13,7 +13,7 @@ from vlib.cli import run_cli
 
 ID = 'C18'
 LEVEL = 'exploration'
-RULE = ('Generated histories (model-based, 5..25 steps) over a fresh copy of a synthetic database directory whose genome file is put into a drawn valid SQLite configuration (default rollback journal, WAL, PERSIST, other page size, user_version, older table layout without the optional extra columns, additional tables / indices / views, WAL mode with the last committed transaction still in the -wal file beside the genome file). Steps: CLI query (files / list '
+RULE = ('Generated histories (model-based, 5..25 steps) over a fresh copy of a synthetic database directory whose genome file is put into a drawn valid SQLite configuration (default rollback journal, WAL, PERSIST, other page size, user_version, older table layout without the optional extra columns, additional tables / indices / views, WAL mode with the last committed transaction still in the -wal file beside the genome file, a hot rollback journal beside a half-written file). Steps: CLI query (files / list '
         '/ -s; csv / json / archive; --strict), dist --use-db, dist with mismatching parameters (fails), signatures info -d (plain / -j / '
         '-i / -jp), signatures create --db-params, tree, commands with bad arguments or missing files; library: ReferenceDatabase.load_from_dir '
         '+ query() (optionally left open across steps), load_genomeset / file_sessionmaker default session followed by an ORM edit (change '
